@@ -333,6 +333,27 @@ impl<'a> Evaluator<'a> {
                     "flipfirst" => v[0] ^= 0x01,
                     "fliplast" => v[l - 1] ^= 0x80,
                     "flipmid" => v[l / 2] ^= 0x10,
+                    // the inverse of an uncompressed P-256 point: (x, p - y)
+                    "negate" => {
+                        if l != 65 || v[0] != 4 {
+                            return Err("negate: not an uncompressed P-256 point".into());
+                        }
+                        const P: [u8; 32] = [
+                            0xff, 0xff, 0xff, 0xff, 0x00, 0x00, 0x00, 0x01, 0, 0, 0, 0, 0, 0, 0, 0, 0, 0, 0, 0, 0xff, 0xff, 0xff, 0xff, 0xff,
+                            0xff, 0xff, 0xff, 0xff, 0xff, 0xff, 0xff,
+                        ];
+                        let mut borrow = 0i16;
+                        for i in (0..32).rev() {
+                            let d = P[i] as i16 - v[33 + i] as i16 - borrow;
+                            if d < 0 {
+                                v[33 + i] = (d + 256) as u8;
+                                borrow = 1;
+                            } else {
+                                v[33 + i] = d as u8;
+                                borrow = 0;
+                            }
+                        }
+                    },
                     "junk" => {
                         let mut j = junk_bytes(self.b.seed, &format!("alt:{}", hex::encode(&v[..l.min(8)])), l);
                         if j == v {
